@@ -80,6 +80,13 @@ class Report:
         self.extra = {}
         self.witness_ok = None
 
+    def run_validation(self, fn):
+        """environment-model validation: a failure is an inconclusive (exit 3), never hides found violations"""
+        try:
+            self.validated += int(fn() or 0)
+        except Exception as e:
+            self.inconclusive.append({"error": "model validation: %s: %s" % (type(e).__name__, e)})
+
     def add_stats(self, s):
         for k in self.stats:
             if k in s:
